@@ -27,7 +27,7 @@ counters! {
     w_calls, w_accept, w_short, w_eintr, w_hard_transient, w_hard_sticky, w_full, w_lost, w_crash, w_reenter, w_sink_panic,
     w_after_crash_ignored,
     flush_calls, flush_ok, flush_err, flush_crash,
-    bufwriter_runs, sync_each_write_runs, pretty_runs, fresh_instance_runs,
+    bufwriter_runs, sync_each_write_runs, pretty_runs, fresh_instance_runs, fresh_instance_other_representation,
     // write phase outcomes
     wr_acknowledged, wr_failed_honestly, wr_crashed, wr_corrupted_by_medium,
     // recovery phase
